@@ -1210,10 +1210,9 @@ def run_r4(repo: Repo, res: Result) -> None:
                         continue
                     if isinstance(a, ast.Attribute) and dotted(a).startswith("self.") and _is_graph(fn, a):
                         continue
-                    ctx, orig = fn.ctx_of(a)
                     whole = False
-                    if ctx is fn.fi and (parent(orig) is not None or hasattr(orig, "_at")):
-                        da = co.normalise(co.describe(orig))
+                    if True:
+                        da = co.normalise(co._describe_copy(a))
                         whole = not da.unknown and not da.removals and len(da.contribs) == 1 and not da.contribs[0].conds and len(da.contribs[0].binders) == 1 and da.contribs[0].binders[0].root and dotted(da.contribs[0].binders[0].source) in params and isinstance(da.contribs[0].elt, ast.Name) and da.contribs[0].elt.id in da.contribs[0].binders[0].names
                     if not whole:
                         bad.append(f"the search also receives `{norm(a, 60)}`")
